@@ -895,6 +895,15 @@ theorem copy_tables_ok :
     ∧ Generated.copyRows.all (fun r => !r.kind.isWrapper || wrapperRowSafe r || unsafeWrapperRows.contains r) = true := by
   decide
 
+/-- former findings `wrapper-copy-*` (fixed by /repo 45dcf95): every wrapper row of today's table keeps
+    copies apart — a copy of a field's collection taken on its own is a plain container, a wrapper
+    copied with its owner is bound to the NEW owner, and taking a copy never touches the original
+    owner.  (The rows of 58bf716 are `unsafeWrapperRows`: `wrapper_deepcopy_reaches_owner`,
+    `wrapper_copy_mutates_owner` replay them on the model.) -/
+theorem fixed_wrapper_rows_safe :
+    Generated.copyRows.all (fun r => !r.kind.isWrapper || wrapperRowSafe r) = true := by
+  decide
+
 /-- `x = A(arr=[1, [..]], m={..}, n=B(arr=[..]))`: cell 0 = x, 1 = x.arr (bound to 0), 2 = an untyped
     list inside, 3 = x.m (bound to 0), 4 = the nested structure, 5 = its wrapper (bound to 4) -/
 def exHeap : Heap := Heap.ofList [
